@@ -28,6 +28,13 @@ CLAIMS = {
             "findings with replay inputs); the thorough tier checks that every function comparing input with LF also handles CR. "
             "This is what makes terminator choice and normalisation independent of where a line break sits. The two-run "
             "commutation equations are not decided.", "DESIGN.md section 4 C08"),
+    "C20": ("must-pass-through of the nl_max test on every newline path of do_blank_lines; effect summaries (may-set-newline-count) over the call graph against the position of do_blank_lines in the newline loop; option provenance to count sinks vs the nl_max guard set; option-family partition of newlines_eat_start_end; guard/receiver analysis of the eat_blanks sites",
+            "Every newline chunk outside disabled regions passes the nl_max cap, which lowers the count to the option value; inside the "
+            "newline loop nothing that can raise a count runs after the cap except three calls shown to only lower or take the "
+            "maximum; all count-raising options are compared with nl_max before any source is read (including --set overrides); "
+            "start/end-of-file handling reads only its own option family on the matching end of the list; both eat_blanks options "
+            "reduce the brace-adjacent newline to one and veto increases. Holds for all inputs; the arithmetic between the ~40 "
+            "blank-line options and passes after the newline loop are not decided.", "DESIGN.md section 4 C20"),
     "C09": ("closed-form table agreement: numeric extraction of the UTF-8 encoder/decoder branch tables and of the UTF-16 surrogate arithmetic from the expression trees, exhaustiveness of the encoding switches, who-may-write for cpd.enc/cpd.bom and who-may-call for the byte writers",
             "For all six UTF-8 lengths the encoder's bit fields are shown disjoint and covering, its thresholds equal 2^(payload "
             "bits), and the decoder's lead masks, payload masks, continuation counts and per-length minimum (overlong rejection) "
